@@ -288,10 +288,16 @@ class Policy(object):
         members = list(inp.enum.__members__)
         if base == 'state':
             return 'NC' if 'nc_d-400' in p['forms'] or d(st.booleans()) else d(st.sampled_from(members))
+        if base == 'belongs_to' and fbase == '1099-r' and p.get('both_spouses_1099r') and 'spouse' in members:
+            n_seen = self.memo.get('r_owner', 0)
+            self.memo['r_owner'] = n_seen + 1
+            return 'spouse' if n_seen % 2 else 'taxpayer'
         if base == 'belongs_to':
             if p['status'] == 'MarriedFilingJointly' and 'spouse' in members and d(st.integers(0, 2)) == 0:
                 return 'spouse'
             return 'taxpayer'
+        if p.get('nc_withholding') and 'NC' in members and ('state' in base or base.startswith(('box_15', 'box_14', 'box_10a'))):
+            return 'NC'
         if base.startswith('box_12') and base.endswith('_code'):
             return '' if d(st.integers(0, 3)) else d(st.sampled_from(['D', 'DD', 'AA', 'E', 'C']))
         if inp.allow_empty and d(st.booleans()):
@@ -391,6 +397,8 @@ class Policy(object):
             if base == 'box_4':
                 return round(self.memo.get(('r', inst), 0.0) * 0.1, 2) if d(st.booleans()) else 0.0
             if base in ('box_14_1',):
+                if p.get('nc_withholding'):
+                    return money(d, 50, 900)
                 return self.amount(0, 500)
             return 0.0
         if fbase == '1099-g':
